@@ -774,7 +774,7 @@ func drawConc(double bool) func(t *rapid.T) ConcCase {
 		for i := 0; i < nc; i++ {
 			cs := Cons{}
 			if rapid.IntRange(0, 3).Draw(t, "timedmode") == 0 {
-				cs.Timed = drawTimeout(t)
+				cs.Timed = drawWaitingTimeout(t)
 			}
 			if rapid.IntRange(0, 3).Draw(t, "quotamode") == 0 {
 				cs.Quota = rapid.IntRange(1, 20).Draw(t, "quota")
